@@ -455,6 +455,7 @@ type FuncContract struct {
 	Trusted   bool // assumed contract (body not verified)
 	Inline    bool // force inlining
 	NoBounds  bool
+	ForkJoin  bool // go statements run at the go statement (fork-join discipline, race obligations generated)
 	NoFrame   bool
 	SpecPkg   string // package in whose scope the clauses are resolved (extern contracts)
 	Pure      bool
@@ -505,7 +506,7 @@ type Contracts struct {
 	Ambig  map[string]bool          // extern keys declared (differently) by more than one package
 }
 
-var kwRe = regexp.MustCompile(`^(func|iface|extern|requires|ensures|modifies|loop|pred|pure|ghostset|ghost|trusted|inline|props|nobounds|noframe|free|mode|opaque|invariant)\b`)
+var kwRe = regexp.MustCompile(`^(func|iface|extern|requires|ensures|modifies|loop|pred|pure|ghostset|ghost|trusted|inline|props|nobounds|noframe|forkjoin|free|mode|opaque|invariant)\b`)
 
 func loadContracts(root string, pkgDirs map[string]string) (*Contracts, error) {
 	cs := &Contracts{Funcs: map[string]*FuncContract{}, Pures: map[string]*PureFunc{}, Scoped: map[string]*FuncContract{}, Ambig: map[string]bool{}}
@@ -628,6 +629,8 @@ func (cs *Contracts) parseFile(pkgPath, fn, data string) error {
 			cur.NoBounds = true
 		case "noframe":
 			cur.NoFrame = true
+		case "forkjoin":
+			cur.ForkJoin = true
 		case "mode":
 			cur.Mode = rest
 		case "props":
